@@ -1,7 +1,10 @@
 (* Properties_C06.v — FITS serialisation round-trips every table exactly, in the documented layout.
-   Statements only; proofs are in C06_Proofs.v (L2, the byte format) and C06_L1.v (L1, photospline's logic). *)
+   Statements only; proofs are in C06_Proofs.v (L2, the byte format), C06_L1.v (L1, photospline's logic) and C06_Wf.v
+   (well-formedness of the produced document from table-level conditions; operator==). *)
 From Coq Require Import List NArith ZArith Bool.
-From PS Require Import Generated_fits FitsModel FitsWf C06_Proofs C06_L1.
+From Coq Require String.
+From PS Require Import Generated_fits FitsModel FitsWf C06_Proofs C06_L1 C06_Wf C06_AuxTie.
+From PS Require AuxModel Generated_aux.
 Import ListNotations.
 Open Scope N_scope.
 
@@ -30,13 +33,56 @@ Proof. exact roundtrip_L1. Qed.
 Theorem C06_aux_padding_only : forall v, no_char quote v = true -> fits_quote v = pad_right 8 v.
 Proof. intros v H. unfold fits_quote. rewrite escape_no_quote by exact H. reflexivity. Qed.
 
-(* bytes: strict and lenient (C07) readers.
-   FULL STATEMENT WANTED:  wf_table t = true -> <conditions on aux keys/values and word ranges of t> -> ...
-   PROVED: with the card-level well-formedness of the produced document as an explicit, decidable hypothesis
-   (wf_doc (to_doc t) = true; evaluated through the extracted model on every generated table by the check). *)
+(* bytes: strict and lenient (C07) readers, with the card-level well-formedness of the produced document as an explicit
+   hypothesis (kept: C07/C08 use it for documents that do not come from wf_table' tables) *)
 Theorem C06_roundtrip_partial : forall t, wf_table t = true -> wf_doc (to_doc t) = true ->
   exists t', of_bytes (to_bytes t) = Ok t' /\ read_bytes (to_bytes t) = Ok t' /\ table_eq_upto_padding t t'.
 Proof. exact roundtrip_bytes. Qed.
+
+(* that hypothesis is derived from conditions on the table alone (FitsWf.wf_table': wf_table, ndim <= 999, axis lengths and
+   knot counts < 2^63, coefficient words < 2^32, knot/extent words < 2^64, period tokens, auxiliary keys and values that fit
+   on one card in the standard form — see the comment at wf_table') *)
+Theorem C06_wf_doc : forall t, wf_table' t = true -> wf_doc (to_doc t) = true.
+Proof. exact wf_doc_to_doc. Qed.
+
+(* THE FULL STATEMENT: every wf_table' table round-trips through bytes, for the strict and the lenient (C07) reader *)
+Theorem C06_roundtrip : forall t, wf_table' t = true ->
+  exists t', of_bytes (to_bytes t) = Ok t' /\ read_bytes (to_bytes t) = Ok t' /\ table_eq_upto_padding t t'.
+Proof. exact roundtrip_full. Qed.
+
+(* the auxiliary-entry conjunct of wf_table' against C16's model of write_key (AuxModel.accepts with the parameters read from
+   the current source tree): every accepted (key, value) satisfies aux_entry_ok, except EXTNAME / HDUNAME (known finding) and
+   HIERARCH keys whose card does not fit in the standard form; the second theorem says which accepted entries those are:
+   encoded value length = 67 - keylen (cfitsio writes "key= 'value'"), or keylen > 58 (the 8-character minimum is truncated) *)
+Theorem C06_write_key_accepted_entry_ok : forall ks vs,
+  AuxModel.accepts Generated_aux.gen_params ks vs = true ->
+  str_eqb (lit ks) s_EXTNAME = false -> str_eqb (lit ks) s_HDUNAME = false ->
+  ((length (lit ks) <= 8)%nat \/ (length (lit ks) + Nat.max 8 (enc_len (lit vs)) <= 66)%nat) ->
+  aux_entry_ok (lit ks, lit vs) = true.
+Proof. exact write_key_accepted_entry_ok. Qed.
+Theorem C06_write_key_fit_gap : forall ks vs,
+  AuxModel.accepts Generated_aux.gen_params ks vs = true -> (8 < length (lit ks))%nat ->
+  (length (lit ks) + Nat.max 8 (enc_len (lit vs)) <= 66)%nat \/
+  (length (lit ks) + enc_len (lit vs) = 67)%nat \/ (58 < length (lit ks) <= 66)%nat.
+Proof. exact fit_condition_gap. Qed.
+
+(* "the reloaded table compares equal": table_op_eq is the model of splinetable::operator== (C06_Wf.v, section H).
+   Every field operator== reads is equal in the reloaded table, so it compares to anything exactly as the original does,
+   and equal to the original whenever the original holds no NaN (IEEE: a NaN is not == to itself; see C06_nan_compares_unequal) *)
+Theorem C06_reload_compares_equal : forall t t', table_eq_upto_padding t t' ->
+  (t_ndim t' = t_ndim t /\ t_order t' = t_order t /\ t_naxes t' = t_naxes t /\
+   map (@length N) (t_knots t') = map (@length N) (t_knots t) /\ t_knots t' = t_knots t /\
+   ncoeffs t' = ncoeffs t /\ t_coeffs t' = t_coeffs t) /\
+  (forall x, table_op_eq t' x = table_op_eq t x /\ table_op_eq x t' = table_op_eq x t) /\
+  (nan_free t = true -> table_op_eq t' t = true /\ table_op_eq t t' = true).
+Proof. exact reload_compares_equal_all. Qed.
+Theorem C06_roundtrip_compares_equal : forall t, wf_table' t = true -> nan_free t = true ->
+  exists t', of_bytes (to_bytes t) = Ok t' /\ read_bytes (to_bytes t) = Ok t' /\
+             table_op_eq t' t = true /\ table_op_eq t t' = true.
+Proof. exact roundtrip_compares_equal. Qed.
+Theorem C06_nan_compares_unequal : forall t x w, (0 < t_ndim t)%nat ->
+  In w (firstn (N.to_nat (ncoeffs t)) (t_coeffs t)) -> is_nan32 w = true -> table_op_eq t x = false.
+Proof. exact nan_compares_unequal. Qed.
 
 (* documented layout: HDU 0 holds the coefficients in row-major order as they are in memory (data word k = coefficient k),
    BITPIX -32, and NAXISj = naxes[ndim-j] *)
@@ -70,6 +116,48 @@ Definition ex_table : table :=
 
 Example ex_wf_table : wf_table ex_table = true. Proof. vm_compute. reflexivity. Qed.
 Example ex_wf_doc : wf_doc (to_doc ex_table) = true. Proof. vm_compute. reflexivity. Qed.
+Example ex_wf_table' : wf_table' ex_table = true. Proof. vm_compute. reflexivity. Qed.
+(* more auxiliary keys: a value with quotes (doubled on the card), a HIERARCH key with inner blanks and punctuation, a short key
+   with a 68-character value and a 30-character HIERARCH key with the longest value that fits (36 = 66 - 30) *)
+Definition ex_table2 : table :=
+  {| t_order := t_order ex_table; t_knots := t_knots ex_table; t_naxes := t_naxes ex_table; t_strides := t_strides ex_table;
+     t_coeffs := t_coeffs ex_table; t_extents := None; t_periods := None;
+     t_aux := t_aux ex_table ++
+              [([81; 85; 79; 84; 69; 68], [105; 116; 39; 115; 32; 39; 39]);                           (* QUOTED = it's '' *)
+               ([76; 79; 78; 71; 32; 75; 69; 89; 46; 87; 73; 84; 72; 32; 66; 76; 65; 78; 75; 83], [120]);   (* LONG KEY.WITH BLANKS *)
+               ([77; 65; 88; 54; 56], repeat 122 68);
+               (repeat 75 30, repeat 122 36)] |}.
+Example ex_wf_table'2 : wf_table' ex_table2 = true. Proof. vm_compute. reflexivity. Qed.
+Example ex_roundtrip2 : exists t', of_bytes (to_bytes ex_table2) = Ok t' /\ nth 3 (t_aux t') ([], []) =
+  ([81; 85; 79; 84; 69; 68], [105; 116; 39; 39; 115; 32; 39; 39; 39; 39]).
+Proof. eexists. split; vm_compute; reflexivity. Qed.
+(* one more character in either maximal value and the card no longer fits: wf_table' is false (and so is wf_doc) *)
+Example ex_not_wf_table' :
+  wf_table' {| t_order := [0]; t_knots := [[0; 1]]; t_naxes := [1]; t_strides := [1]; t_coeffs := [0]; t_extents := None;
+               t_periods := None; t_aux := [(repeat 75 30, repeat 122 37)] |} = false /\
+  wf_doc (to_doc {| t_order := [0]; t_knots := [[0; 1]]; t_naxes := [1]; t_strides := [1]; t_coeffs := [0]; t_extents := None;
+               t_periods := None; t_aux := [(repeat 75 30, repeat 122 37)] |}) = false.
+Proof. split; vm_compute; reflexivity. Qed.
+(* write_key accepts the example's keys and values (C16's model), also a value that only fits in cfitsio's compressed form *)
+Module ExAccepts.
+Import String.
+Local Open Scope string_scope.
+Example ex_accepts :
+  AuxModel.accepts Generated_aux.gen_params "LONGKEYNAME12" "a b" = true /\ AuxModel.accepts Generated_aux.gen_params "QUOTED" "it's ''" = true /\
+  lit "LONGKEYNAME12" = [76; 79; 78; 71; 75; 69; 89; 78; 65; 77; 69; 49; 50] /\
+  AuxModel.accepts Generated_aux.gen_params "KKKKKKKKKKKKKKKKKKKKKKKKKKKKKK" "zzzzzzzzzzzzzzzzzzzzzzzzzzzzzzzzzzzzz" = true /\
+  aux_entry_ok (lit "KKKKKKKKKKKKKKKKKKKKKKKKKKKKKK", lit "zzzzzzzzzzzzzzzzzzzzzzzzzzzzzzzzzzzzz") = false.
+Proof. repeat split; vm_compute; reflexivity. Qed.
+End ExAccepts.
+(* operator== on the example: it holds NaN coefficients, so it is not == to itself; with the NaNs replaced it is *)
+Example ex_nan_unequal : nan_free ex_table = false /\ table_op_eq ex_table ex_table = false. Proof. split; vm_compute; reflexivity. Qed.
+Definition ex_table3 : table :=
+  {| t_order := t_order ex_table; t_knots := [[0; 4607182418800017408; 4611686018427387904; 4613937818241073152];
+                                               [9223372036854775808; 1; 4607182418800017408; 9218868437227405312]];
+     t_naxes := t_naxes ex_table; t_strides := t_strides ex_table;
+     t_coeffs := [2139095040; 4286578688; 2147483648; 1; 0; 1065353216];          (* +inf -inf -0 denormal +0 1 *)
+     t_extents := t_extents ex_table; t_periods := t_periods ex_table; t_aux := t_aux ex_table |}.
+Example ex_nan_free : wf_table' ex_table3 = true /\ nan_free ex_table3 = true. Proof. split; vm_compute; reflexivity. Qed.
 Example ex_roundtrip : of_bytes (to_bytes ex_table) =
   Ok {| t_order := t_order ex_table; t_knots := t_knots ex_table; t_naxes := [2; 3]; t_strides := [3; 1];
         t_coeffs := t_coeffs ex_table; t_extents := t_extents ex_table; t_periods := Some [Some [48; 46]; Some [54; 46; 50; 56]];
@@ -100,6 +188,13 @@ Print Assumptions C06_card.
 Print Assumptions C06_roundtrip_L1.
 Print Assumptions C06_aux_padding_only.
 Print Assumptions C06_roundtrip_partial.
+Print Assumptions C06_wf_doc.
+Print Assumptions C06_roundtrip.
+Print Assumptions C06_write_key_accepted_entry_ok.
+Print Assumptions C06_write_key_fit_gap.
+Print Assumptions C06_reload_compares_equal.
+Print Assumptions C06_roundtrip_compares_equal.
+Print Assumptions C06_nan_compares_unequal.
 Print Assumptions C06_axis_order.
 Print Assumptions C06_legacy_single_order.
 Print Assumptions C06_legacy_no_extents.
